@@ -530,6 +530,14 @@ class Evaluator:
                     env[dst] = atom("ext", callee, len(self.extcalls))
                 return None
             raise Inconclusive("call to %s not inlined in %s" % (callee, fname))
+        if op in ("insertelement", "extractelement", "shufflevector", "fmul", "fadd", "fsub", "fdiv", "fpext", "fptrunc", "sitofp", "uitofp", "fcmp") and dst:
+            # floating point / vector data: opaque (not part of the index algebra)
+            ops_ = []
+            for tok in re.findall(r"%[\w.]+", rhs):
+                v = env.get(tok)
+                ops_.append(repr(v) if v is not None else tok)
+            env[dst] = atom("fp", op, re.sub(r"%[\w.]+", "_", rhs)[:80], tuple(ops_))
+            return None
         if op == "fneg":
             mm = re.match(r"^fneg (?:[a-z]+ )*(\w+) (\S+)$", rhs)
             env[dst] = atom("fneg", self.val(mm.group(2), env))
